@@ -64,6 +64,7 @@ fixed("FX-C05-04", "C05", "13c8293", "a Decoder fed 3 bytes at a time accepted {
 fixed("FX-C10-04", "C10", "4f16a78", "32 goroutines encoding []T of a recursive T (or a struct with an interface member) for the first time under GC pressure: the programs of the goroutines that lost the cache publication were collected while running a nested program (return address held as uintptr only): 'encoder: opcode  has not been implemented', wrong output, 'found bad pointer in Go heap', SIGSEGV in vm.Run; present in the original tree")
 fixed("FX-C05-05", "C05", "189c5fc", "Valid(\"\\\"\\\\uZZZZ\\\"\") was true: the stream string decoder did not check the hex digits of \\u escapes (was KF-C05-08, KF-C18-V08, KF-C09-R04)")
 fixed("FX-C07-05", "C07", "8eeaac1", "{\"A\":null} into struct{A level; B [7]byte} (level: int8 with UnmarshalText) zeroed B: the TextUnmarshaler decoder stored a pointer-sized nil on null whatever the destination type (noticed by the seeded-change agent for C07, wave 4)")
+fixed("FX-C10-05", "C10", "facc6a6", "MarshalNoEscape(&v) with v unused afterwards, 2..64 goroutines under GC pressure: the value was collected and its memory reused during encoding (race detector: read in vm.Run / AppendInt vs allocation write; 'found pointer to free object'; encodeNoEscape did not pin its argument); present in the original tree")
 fixed("FX-C07-06", "C07", "92cf9c1", "newArrayDecoder read 8 bytes from a fresh zero value of the element type: out of bounds for [N]uint8 and other elements smaller than a pointer (-asan: use-after-poison in decoder.newArrayDecoder on the first decode into such an array; found by the thorough tier's asan variant)")
 fixed("FX-C16-02", "C16", "722e84b", "\"16.0\", \"1e2\", \"0.5\" into an integer stored the digit prefix: NewDecoder(\"16.0\").Decode(&uint8) = nil, 16; {\"1.5\":true} into map[int]bool stored key 1; {\"v\":\"1e2\"} with ,string stored 1; Unmarshal reported a syntax error at the leftover (was KF-C16-03 fraction/exponent classes, KF-C09-01, KF-C02-04, KF-C02-04b)")
 fixed("FX-C16-03", "C16", "26b55f9", "Unmarshal(\"-\", &int64) = nil, value 0 (was KF-C16-01)")
@@ -303,6 +304,12 @@ feature_entries("C08", "(enc-safety|slot-owner)", "KF-C08", SAFE, ["ptr2\\+", "a
 
 known("KF-C08-MPNIL", "C08", r"(enc-safety|process)", None, r"(panic:nil-deref|fatal:out-of-memory|fatal:segv)", r"/internal/encoder\.AppendMarshal(JSON|Text)(Indent)? @ feature:marshalerP-by-value",
       'Marshal((*struct{Y MP})(nil)) panics; see KF-C01-MPNIL', "see KF-C01-MPNIL", "see KF-C01-MPNIL", "see KF-C01-MPNIL")
+
+known("KF-C08-NOESC", "C08", r"(gc-callback|process)", None, r"(fatal:.+|panic:.+|error|abandoned-stack-copy-encoded|stale-or-foreign-data-encoded)", r"(.* @ noescape-stack-resident|MarshalNoEscape\(&local\))",
+      'var d T (a local); json.MarshalNoEscape(&d) where a member\'s MarshalText recurses deep enough to grow the goroutine stack: SIGSEGV in encoder.AppendInt / appendNormalizedHTMLString, or the abandoned stack copy is encoded',
+      "encode.go encodeNoEscape: the argument is deliberately kept from escaping, so it may live on the caller's stack; the interpreter holds its address as uintptr, which is not adjusted when a MarshalJSON/MarshalText callback grows (moves) the stack",
+      "any other failure of MarshalNoEscape on a stack-resident value with a stack-growing callback (the sub-case is localised by its own shape tag; heap values and every other entry point are not covered by this entry)",
+      "inherent in the entry point's contract ('doesn't escape v'): the only repair is to pin the value as Marshal does, which removes what the function is for; the heap-value half of the same defect was fixed in facc6a6")
 
 COMPILE_W = r"W:/internal/(encoder|decoder)\.(copyOpcode|copyToInterfaceOpcode|\(\*Compiler\)\.[A-Za-z]+|compileToGetCodeSet(SlowPath)?|CompileToGetDecoder|compileToGetDecoderSlowPath|compile[A-Za-z0-9]*|new[A-Za-z0-9]+|set[A-Za-z0-9]+|convert[A-Za-z0-9]+|\(\*[A-Za-z]+(Code|Decoder)\)\.[A-Za-z]+|\(\*Opcode\)\.[A-Za-z]+|\(\*structDecoder\)\.tryOptimize)"
 known("KF-C10-PROD", "C10", "race-detector", r"raceprod", r"race", r"(R|W):\S+ / " + COMPILE_W,
